@@ -309,7 +309,7 @@ impl Check for C14 {
         CheckMeta {
             property: "C14",
             level: "exploration",
-            rule: "all 9x9 (primary, alternate) configurations of dialer and listener over three names, with and without identity pinning, both key orders; an adversarial dialer for every (claimed SNI in 4 names) x (certificate for each name, for no name at all, for an IP address only, naming an accepted network only in the subject common name) x (listener configuration); an adversarial listener for every (certificate name) x (dialer configuration) recording the announced SNI; plus the certificate verifiers on every (accepted-name subset, certificate name, dialed name) triple; distinct = distinct (scenario kind, expected, observed)".into(),
+            rule: "all 9x9 (primary, alternate) configurations of dialer and listener over three names, with and without identity pinning, both key orders; an adversarial dialer for every (claimed SNI in 4 names, or no server-name extension at all) x (certificate for each name, for no name at all, for an IP address only, naming an accepted network only in the subject common name) x (listener configuration); an adversarial listener for every (certificate name) x (dialer configuration) recording the announced SNI; plus the certificate verifiers on every (accepted-name subset, certificate name, dialed name) triple; distinct = distinct (scenario kind, expected, observed)".into(),
             assumptions: vec!["three network names (one a proper prefix of another: n1, n1x, n3.example) plus one unknown name stand for all names".into()],
             exhaustive: true,
         }
@@ -330,7 +330,7 @@ impl Check for C14 {
             }
         }
         for l in &cs {
-            for sni in ["n1", "n1x", "n3.example", "zz"] {
+            for sni in ["n1", "n1x", "n3.example", "zz", "<none>"] {
                 for c in 0..CERT_KINDS {
                     u.push(json!({"kind":"adv_dialer","listener":j(l),"sni":sni,"cert_name":c}));
                 }
